@@ -1,7 +1,7 @@
 //! C23 (kernel) — temperature-scale conversions of the standard library undo each other.
 //!
 //! The REAL module `physics::temperature_conversion` is imported into a real session; programs are interpreted through
-//! the whole pipeline. cfg 0 = prelude, cfg 1 = scale ("celsius" | "fahrenheit"). f64 0 = x (assumed |x| <= 1e6).
+//! the whole pipeline. cfg 0 = prelude, cfg 1 = scale ("celsius" | "fahrenheit"), cfg 2 = optional prefixed kelvin unit. f64 0 = x (assumed |x| <= 1e6).
 
 use numbat::value::Value;
 
@@ -24,6 +24,30 @@ pub extern "C" fn h_c23_temperature() {
     let x = f64_(0);
     assume(x >= -1.0e6 && x <= 1.0e6);
     let (to, from) = if fahrenheit { ("fahrenheit", "from_fahrenheit") } else { ("celsius", "from_celsius") };
+    let tol = if fahrenheit { 1.0e-8 } else { 1.0e-9 };
+    // cfg 2 (optional): the unit the absolute temperature is written in (a prefixed kelvin). Only the
+    // kelvin -> scale -> kelvin direction is run then; both sides are expressed in kelvin by the implementation.
+    if let Some(unit) = cfg(2) {
+        let unit = unit.trim().to_string();
+        assume(x >= 0.0);
+        let k0 = match scalar(s.run(&format!("(__verif_sym(0) {unit}) / kelvin"))) {
+            Some(v) => v,
+            None => {
+                check(false, "round-trip-evaluates");
+                return;
+            }
+        };
+        match s.run(&format!("{from}({to}(__verif_sym(0) {unit})) / kelvin")) {
+            Outcome::Value(Value::Quantity(q)) => {
+                cover("c23-round-trip-evaluated");
+                let k = q.unsafe_value().to_f64();
+                check(q.unit().is_scalar(), "kelvin-round-trip-is-a-temperature");
+                check((k - k0).abs() <= tol, "kelvin-to-scale-and-back-restores-the-value");
+            }
+            _ => check(false, "round-trip-evaluates"),
+        }
+        return;
+    }
     // scale value -> kelvin -> scale value
     let v = match scalar(s.run(&format!("{}({}(__verif_sym(0)))", to, from))) {
         Some(v) => v,
@@ -33,7 +57,6 @@ pub extern "C" fn h_c23_temperature() {
         }
     };
     cover("c23-round-trip-evaluated");
-    let tol = if fahrenheit { 1.0e-8 } else { 1.0e-9 };
     check((v - x).abs() <= tol, "scale-to-kelvin-and-back-restores-the-value");
     // kelvin -> scale value -> kelvin (for non-negative absolute temperatures)
     if x >= 0.0 {
